@@ -224,6 +224,17 @@ def same_fractions(tag, a, b, devs, what):
             return
 
 
+def normalised(tag, obs, devs, mon):
+    """x and X of ANY composite each sum to 100 % (rows and the 'sum' row)"""
+    _, _, _, x, X, srow = obs
+    sx, sX = math.fsum(x.values()), math.fsum(X.values())
+    mon['sum_rows_checked'] += 1
+    if not close(sx, 100, RTOL) or not close(sX, 100, RTOL) or srow is None or not close(srow['x'], 100, RTOL) or not close(srow['X'], 100, RTOL):
+        devs.append(dev(tag + '-fractions-do-not-sum-to-100', dict(sum_x=sx, sum_X=sX, sum_row=srow)))
+        return False
+    return True
+
+
 def _finish(ctx, out):
     leak = ctx['hyg'].check_restore()
     out['monitors']['table_hygiene_checks'] = out['monitors'].get('table_hygiene_checks', 0) + 1
@@ -322,6 +333,18 @@ def _run_case(case, ctx, classes, mon, devs):
     if ok:
         ex, eX = expected_fractions([given[t] for t in given], [mass[t] for t in given], norm)
         sample.update(expected_x=dict(zip(given, ex)), expected_X=dict(zip(given, eX)))
+        # ---- the substances the material holds are composites of their own ("for every composite"): each carries its amount in
+        # the material as its own proportion, and its element table is that of the same formula standing alone
+        classes.add('component-substance-of-a-material')
+        for t in list(given)[:4]:
+            held = A.components.get(t)
+            if held is None or not hasattr(held, 'data_composite'):
+                continue
+            oh = cut('component-substance-tables', lambda: read_composite(held, 'count'))
+            oa = cut('standalone-substance-tables', lambda: read_composite(M.Substance(t, natural=natural), 'count'))
+            mon['component_substances_read'] = mon.get('component_substances_read', 0) + 1
+            if normalised('component-substance', oh, devs, mon):
+                same_fractions('component-substance-differs-from-the-formula-alone', oa, oh, devs, dict(component=t, proportion=plain(held.proportion)))
         # ---- scaling twin
         obsB = cut('scaled-material', lambda: read_composite(
             M.Material({t: k * a for t, a in given.items()}, natural=natural, norm_type=NORM), 'fraction'))
@@ -380,6 +403,13 @@ def run_substance(case, ctx, classes, mon, devs):
         obsC = cut('scaled-substance', lambda: read_composite(M.Substance({t: k * c for t, c in given.items()}, natural=natural), 'count'))
         mon['scaling_twins_compared'] += 1
         same_fractions('substance-scaling(dict)', obsA, obsC, devs, dict(k=k))
+        # the substance given an amount of its own (what it has as a component of a material): its element table does not change
+        classes.add('substance-with-own-proportion')
+        obsP = cut('substance-with-proportion', lambda: read_composite(
+            M.Substance(text if case['form'] == 'string' else dict(counts), natural=natural, proportion=k), 'count'))
+        mon['scaling_twins_compared'] += 1
+        if normalised('substance-with-own-proportion', obsP, devs, mon):
+            same_fractions('substance-own-proportion', obsA, obsP, devs, dict(k=k))
     prods = sorted(given[t] * mass[t] for t in given) if set(mass) == set(given) else []
     nontrivial = len(given) >= 2 and all(not close(a, b, 1e-6) for a, b in zip(prods, prods[1:]))
     if devs:
